@@ -554,7 +554,20 @@ def z2_codecs(prog, ctx, wc):
     wn, rn = prog.func(SER, "write_int_neg"), prog.func(SER, "read_int_neg")
     wshifts = {src(x) for x in ast.walk(wn) if isinstance(x, ast.BinOp) and isinstance(x.op, ast.LShift)}
     rshifts = {src(x) for x in ast.walk(rn) if isinstance(x, ast.BinOp) and isinstance(x.op, ast.LShift)}
-    if len(wshifts) != 1 or wshifts != rshifts:
+    shared_flag = None
+    if not wshifts and not rshifts:
+        # the flag may come from a helper both sides call
+        def helpers(fn_):
+            return {call_name(c_) for c_ in ast.walk(fn_) if isinstance(c_, ast.Call) and call_name(c_) in m.functions
+                    and any(isinstance(x, ast.BinOp) and isinstance(x.op, ast.LShift) for x in ast.walk(m.functions[call_name(c_)]))}
+        common = helpers(wn) & helpers(rn)
+        if len(common) == 1:
+            shared_flag = m.functions[common.pop()]
+    if shared_flag is not None:
+        ctx.ok("Z2", "%s:%d" % (SER, shared_flag.lineno), "sign flag computed by %s() on both sides" % shared_flag.name)
+    elif not wshifts and not rshifts:
+        ctx.undecided("Z2", wn, "write_int_neg / read_int_neg", "no sign-flag shift expression found on either side")
+    elif len(wshifts) != 1 or wshifts != rshifts:
         ctx.fail("Z2", rn, "write_int_neg / read_int_neg", "%s vs %s" % (sorted(wshifts), sorted(rshifts)),
                  "sign flag bit differs between writer and reader")
     else:
